@@ -60,6 +60,8 @@ func mkErr(e *errT) error {
 			return net.ErrClosed
 		}
 		return errors.New(string(e.a))
+	case "join":
+		return errors.Join(mkErr(e.inner), mkErr(e.inner2))
 	case "wrap":
 		// fmt.Errorf("pre%wpost") with literal percent signs escaped
 		esc := func(b []byte) string { return strings.ReplaceAll(string(b), "%", "%%") }
@@ -450,7 +452,23 @@ func buildServer(c *cfgT, reg *registry, extra ...wire.OptionFn) (*wire.Server, 
 				r.checkKept("at a later statement call")
 				ps := []any{"params"}
 				r.keepParams(params)
-				for _, p := range params {
+				for pi, p := range params {
+					// the parameter's own decoder: as text it is the value byte for byte (whatever the bytes are: NUL,
+					// blanks, invalid UTF-8), as binary bytea likewise
+					if p.Value() != nil {
+						if v, err := p.Scan(25); err != nil {
+							r.bad("parameter %d: Scan as text failed: %v", pi+1, err)
+						} else if sv, ok := v.(string); !ok || sv != string(p.Value()) {
+							r.bad("parameter %d: Scan as text gives %q, the value is %q", pi+1, v, p.Value())
+						}
+						if p.Format() == wire.BinaryFormat {
+							if v, err := p.Scan(17); err != nil {
+								r.bad("parameter %d: Scan as binary bytea failed: %v", pi+1, err)
+							} else if bv, ok := v.([]byte); !ok || string(bv) != string(p.Value()) {
+								r.bad("parameter %d: Scan as binary bytea gives %q, the value is %q", pi+1, v, p.Value())
+							}
+						}
+					}
 					r.keepB("parameter value", p.Value())
 					if p.Value() == nil {
 						ps = append(ps, sx(int(uint16(p.Format())), "null"))
